@@ -224,6 +224,22 @@ def run(ck):
                                  % (vn[5:], delta, lam, err),
                                  {"crystal": nm, "cutoff": cut, "kT": kT, "tags": {t[1]: list(v) for t, v in ud.items()}, "shifted_types": list(types),
                                   "base": [b.tolist() for b in Lt], "got": [g.tolist() for g in got]}, key="c04-vm-" + vn)
+        # the tracer workflow (maketracerpreene): scaling the omega0 prefactors by lam2 must scale all tensors by lam2
+        tr0 = dict(preV=np.array(th["preV"], dtype=float), eneV=np.array(th["eneV"], dtype=float),
+                   preT0=np.array(th["preT0"], dtype=float), eneT0=np.array(th["eneT0"], dtype=float))
+        try:
+            tA = dict(tr0); tA.update(d.maketracerpreene(**tr0))
+            tB = dict(tr0, preT0=tr0["preT0"] * lam2); tB.update(d.maketracerpreene(**tB))
+            LA = [np.array(x) for x in d.Lij(*d.preene2betafree(kT, **tA))]; LB = [np.array(x) for x in d.Lij(*d.preene2betafree(kT, **tB))]
+            nvm += 1
+            errt = max(np.abs(b_ - lam2 * a_).max() for a_, b_ in zip(LA, LB)) / (np.abs(LA[0]).max() * max(lam2, 1.0))
+            ck.case(key=("vm", "tracer-rate-scale", nm, [np.asarray(v).round(10).tolist() for v in tr0.values()], lam2), nontrivial=True, kind="vm:tracer-rate-scale")
+            if errt > 1e-7:
+                ck.violation("tracer data from maketracerpreene: scaling the omega0 prefactors by %g does not scale the coefficients (%.3g relative)" % (lam2, errt),
+                             {"crystal": nm, "cutoff": cut, "kT": kT, "thermo": {k: np.asarray(v).tolist() for k, v in tr0.items()}, "lam": lam2,
+                              "L": [x.tolist() for x in LA], "L_scaled": [x.tolist() for x in LB]}, key="c04-vm-tracer-rate-scale")
+        except Exception as e:
+            ck.violation("tracer workflow raised %r" % e, {"crystal": nm}, key="c04-raise")
         # the same invariances on the scaled free energies handed to Lij DIRECTLY (no renormalisation by preene2betafree):
         # a common shift of a species' site and transition-state values must not matter whatever the zero of the arrays is
         bFV, bFS, bFSV, bFT0, bFT1, bFT2 = [np.array(x, dtype=float) for x in d.preene2betafree(kT, **th)]
